@@ -375,6 +375,14 @@ fn mutate(bytes: &[u8], m: &Value, payload_off: usize) -> Vec<u8> {
             let n = a[1].as_u64().unwrap() as usize;
             v.extend(std::iter::repeat(0xA5u8).take(n));
         }
+        "pidff" => {
+            // first byte of the FEC payload id (most significant byte of the SBN) set to 0xFF: a source block far
+            // beyond the partition of the object
+            let pidlen = if v.len() > 3 && v[3] == 129 { 8 } else { 4 };
+            if payload_off >= pidlen && payload_off <= v.len() {
+                v[payload_off - pidlen] = 0xFF;
+            }
+        }
         "payflip" => {
             // flip a payload byte: 0 first, 1 middle, 2 last
             if v.len() > payload_off {
@@ -542,7 +550,7 @@ pub fn run_rx_behaviour(beh: &Value, sessions: &Vec<Session>, out: &mut Out, lim
                     }
                 }
             }
-            "garbage" | "fuzzhdr" | "mutseq" | "xmlfdt" | "rawset" => {
+            "garbage" | "fuzzhdr" | "mutseq" | "xmlfdt" | "rawset" | "truncall" => {
                 if let Some(r) = rx.as_mut() {
                     let endpoint = make_ep(ep);
                     let mut cases: Vec<Vec<u8>> = Vec::new();
@@ -568,6 +576,16 @@ pub fn run_rx_behaviour(beh: &Value, sessions: &Vec<Session>, out: &mut Out, lim
                                 // half of the samples start like a plausible LCT header
                                 if x & 1 == 0 && v.len() >= 4 { v[0] = 0x10; v[2] = (v[2] % 12) as u8; }
                                 cases.push(v);
+                            }
+                        }
+                        "truncall" => {
+                            // every proper prefix of packet a[1] (truncation at every byte)
+                            let i = a[1].as_u64().unwrap() as usize;
+                            if i >= 1 && i <= s.pkts.len() {
+                                let (_, bytes, _) = &s.pkts[i - 1];
+                                for l in 0..bytes.len() {
+                                    cases.push(bytes[..l].to_vec());
+                                }
                             }
                         }
                         "rawset" => {
